@@ -237,4 +237,45 @@ theorem Inv.step_ul1 {c : Cfg} {o : Orders} {s : State} {t i : Nat} (inv : Inv c
   · intro e V _ h; simp at h
   · simp [PcOK]
 
+/-- Accessor::release with a region still open: the release store of UINT64_MAX closes it -/
+theorem Inv.step_rl1 {c : Cfg} {o : Orders} {s : State} {t i : Nat} (inv : Inv c o s) (hp : s.pc t = .rl1 i) :
+    Inv c o { s with mem := s.mem.write t (.slot i) o.releaseStore MAX,
+                     lt := upd s.lt i Gen.Epoch.unregisterDepthAfter, pc := upd s.pc t (.rl2 i),
+                     fv := upd s.fv i none,
+                     av := upd s.av i ((s.mem.write t (.slot i) o.releaseStore MAX).tv t).cur } := by
+  have hpc := inv.pcs t; unfold PcOK at hpc; rw [hp] at hpc
+  obtain ⟨hown, hlt⟩ := hpc
+  have hext := Mem.write_ext s.mem t (.slot i) o.releaseStore MAX
+  have hwf := Mem.write_wf s.mem t (.slot i) o.releaseStore MAX inv.wf
+  have hnc : ¬ creating s i t := by simp [creating, hp, Pc.crAt]
+  have hav : s.av i ≤ ((s.mem.write t (.slot i) o.releaseStore MAX).tv t).cur :=
+    View.le_trans (inv.acc i t hown).1 (hext.cur t)
+  apply inv.slot_step (s' := { s with mem := s.mem.write t (.slot i) o.releaseStore MAX, lt := upd s.lt i Gen.Epoch.unregisterDepthAfter, pc := upd s.pc t (.rl2 i), fv := upd s.fv i none, av := upd s.av i ((s.mem.write t (.slot i) o.releaseStore MAX).tv t).cur })
+    (t := t) (i0 := i) hown hext hwf (fun t' e => Mem.write_tv_other _ _ _ _ _ _ e)
+    (fun l hl _ => Mem.write_hist_other _ _ _ _ _ _ hl)
+    (tblMono_of_hist (Mem.write_hist_other _ _ _ _ _ _ (by simp)) inv.tblMono) <;> try rfl
+  · intro j e; simp [e]
+  · intro j e; simp [e]
+  · intro j _; rfl
+  · intro j e; simp [e]
+  · intro t' e; simp [e]
+  · intro j _; simp [hp, Pc.crAt]
+  · intro j e; simp [hp, Pc.lkAt]
+  · intro j e; simp [hp, Pc.lk3At]
+  · simp only [upd_same, State.cur]; exact ⟨hav, View.le_refl _⟩
+  · intro ht _
+    simp only [upd_same]
+    exact CapOK.mono (s := s) (inv.accCap i t hown ht hnc) hext hav (hwf.cur t)
+      (tblMono_of_hist (Mem.write_hist_other _ _ _ _ _ _ (by simp)) inv.tblMono)
+  · intro V h; simp at h
+  · intro V e W h; simp at h
+  · intro _ _
+    have hb := inv.wf.cur t (.slot i)
+    refine ⟨?_, ?_⟩
+    · simp [Mem.len]
+    · simp [TView.wrote]; omega
+  · intro _ _; simp [Gen.Epoch.unregisterDepthAfter]
+  · intro e V _ h; simp at h
+  · simp [PcOK, Gen.Epoch.unregisterDepthAfter]; exact hown
+
 end Babylon.Epoch
